@@ -53,7 +53,9 @@ def code_schema():
         InputField("l", ListType(NonNullType(Int)), default_value=[1, 2]),
         InputField("again", inner, default_value=None),
         InputField("cs", ListType(color), default_value=[1, "g"]),
+        InputField("snake", Int, python_name="snake_py", default_value=3),
     ])
+    named_in = InputObjectType("NamedIn", [InputField("someField", NonNullType(Int), python_name="some_field"), InputField("other", Int, python_name="other_py", default_value=3)])
     from py_gql.schema import RegexType
 
     class SubObject(ObjectType):
@@ -82,10 +84,12 @@ def code_schema():
     side = EnumType("Side", [("LEFT", "RIGHT"), ("RIGHT", "LEFT"), ("UP", "UP"), ("DOWN", "up")])
     sided = InputObjectType("Sided", [InputField("sd", side, default_value="LEFT"), InputField("sl", ListType(side), default_value=["RIGHT", "UP", "up"])])
     query = ObjectType("Query", [
+        Field("py", Int, args=[Argument("theArg", named_in, python_name="the_arg", default_value={"some_field": 1, "other_py": 4}),
+                               Argument("inner", inner, default_value={"n": 2, "c": 1, "s": "x", "l": [1, 2], "again": None, "cs": [1, "g"], "snake_py": 9})]),
         Field("side", side, args=[Argument("s", side, default_value="RIGHT"), Argument("ss", NonNullType(ListType(NonNullType(side))), default_value=["LEFT", "RIGHT"]),
                                   Argument("o", sided, default_value={"sd": "RIGHT", "sl": ["LEFT"]})]),
         Field("f", String, description="desc", deprecation_reason="old", args=[
-            Argument("a", inner, default_value={"n": 1, "c": "g", "s": "x", "l": [], "again": {"n": 2, "c": 1, "s": "", "l": [3], "again": None, "cs": []}, "cs": [(0, 0, 255)]}),
+            Argument("a", inner, default_value={"n": 1, "c": "g", "s": "x", "l": [], "again": {"n": 2, "c": 1, "s": "", "l": [3], "again": None, "cs": [], "snake_py": 3}, "cs": [(0, 0, 255)], "snake_py": 4}),
             Argument("e", NonNullType(ListType(color)), default_value=[1, "g"]),
             Argument("fl", Float, default_value=1.5), Argument("b", Boolean, default_value=False), Argument("i", ID, default_value="x"),
             Argument("nul", String, default_value=None), Argument("z", Int, default_value=0), Argument("emp", String, default_value=""),
